@@ -15,3 +15,4 @@ open HmcVerif.C06
 #print axioms rwmh_chain_stays_in_box
 #print axioms hmc_chain_good
 #print axioms hmc_chain_stays_in_box
+#print axioms corrector_lands_in_box
